@@ -2,3 +2,6 @@
 #[path = "../common/spec.rs"]
 pub mod spec;
 pub mod c01;
+pub mod c02;
+pub mod c15;
+pub mod scratch;
